@@ -142,6 +142,10 @@ def run(ctx):
         runs.append(["zoo", [1, 2, 4, 8][r % 4], ctx.seed * 100 + r, [1, 10, 100, 400][(r // 4) % 4]])
     ctx.rules.append("fnode-zoo (oracle only): input_node -> limited function_node -> multifunction_node routing even/odd; continue_node with 1-4 predecessors; async_node with reserve_wait / gateway "
                      "results from foreign threads; an exception in a body: every produced value once on the right port, one firing per complete set of signals, wait_for_all not before release_wait, nothing starts after the throw")
+    for r in range(ctx.scale(3, 20)):
+        runs.append(["greset", 0, ctx.seed * 100 + 70 + r, 0])
+    ctx.rules.append("fnode-greset (oracle only): graphs run, reset (default / rf_reset_bodies / rf_reset_protocol; after a normal run, a cancellation, an exception) and run again twice: a continue_node joining 2-4 "
+                     "edge-connected predecessors fires exactly once per round, a limiter with a continue_msg decrementer still lets everything through, a queue -> function pipeline delivers everything once")
     for r in range(ctx.scale(6, 60)):
         runs.append(["latedge", [2, 4, 8][r % 3], ctx.seed * 100 + r, [64, 300][r % 2], ctx.scale(150, 1500)])
     ctx.rules.append("fnode-latedge (oracle only): senders that keep an untaken message offer it again when a successor registers later / again: input_node activated without successors + try_get then make_edge; "
@@ -158,7 +162,7 @@ def run(ctx):
         t = (lines2 or ["no output"])[-1].split()
         if rc != 0 or len(t) < 6 or any(x != "0" for x in t[1::2]):
             bad += 1
-            what = ("function_node(limit %d) -> %d successors" % (args[4], args[5])) if args[0] == "mt" else ("queue_node -> rejecting function_node(concurrency %d), %d rounds" % (args[4], args[3])) if args[0] == "mtpull" else ("late / repeated successor registration (A: input_node try_get then make_edge, B: after a reserving join rejected, C: %d graphs input_node -> rejecting function_node of %d items, LATE: buffering nodes filled before make_edge)" % (args[4], args[3])) if args[0] == "latedge" else ("input / multifunction / continue / async nodes and an exception, %d items" % args[3]) if args[0] == "zoo" else (
+            what = ("function_node(limit %d) -> %d successors" % (args[4], args[5])) if args[0] == "mt" else ("queue_node -> rejecting function_node(concurrency %d), %d rounds" % (args[4], args[3])) if args[0] == "mtpull" else "graphs reset and run again (CONT = a continue_node with several edge-connected predecessors does not fire exactly once per round after graph::reset; LIM = limiter with continue_msg decrementer; FLOW = queue -> function_node)" if args[0] == "greset" else ("late / repeated successor registration (A: input_node try_get then make_edge, B: after a reserving join rejected, C: %d graphs input_node -> rejecting function_node of %d items, LATE: buffering nodes filled before make_edge)" % (args[4], args[3])) if args[0] == "latedge" else ("input / multifunction / continue / async nodes and an exception, %d items" % args[3]) if args[0] == "zoo" else (
                 "function_node broadcasting to [queueing, unlimited] plus a %s connected %s" % (["rejecting serial function_node", "full limiter_node"][args[5]], ["first", "in the middle", "last"][args[4]]))
             ctx.add(Finding("violation", "fnode-" + args[0], "%s, %d worker threads, seed %d: %s rc=%s" % (what, args[1], args[2], " ".join(t), rc), {"tie": "fnode-mt", "args": args}))
             if bad >= 3:
